@@ -81,7 +81,7 @@ PLAN = dict(
     fuzz=desc_fuzz("C17", fix=dict(k=(0, 10))),
     required_classes=dict(all=["extract:ref", "save:ref", "m=4", "m=8", "m>=4096", "rows=0", "rows=1", "rows>=2",
                                "rows>8", "rows=64", "sl=2m", "sl>2m", "blk:all", "blk:generated", "blk:interior",
-                               "dot:ref", "cfg:generic", "cfg:full", "elem:reim4_zero", "elem:reim4_add", "elem:reim4_mul", "elem:reim4_add_mul",
+                               "dot:ref", "cfg:generic", "cfg:full", "pointwise:r==a", "pointwise:r==b", "elem:reim4_zero", "elem:reim4_add", "elem:reim4_mul", "elem:reim4_add_mul",
                                "conv:reim4_convolution_1coeff_ref", "conv:reim4_convolution_2coeff_ref", "conv:reim4_convolution_ref",
                                "sizea=0", "sizeb=0", "dest_size=0", "window-beyond-product", "window-straddles-end", "full-convolution",
                                "terms>=2", "vfam:signed-zeros", "vfam:dynamic-range", "vfam:cancelling",
